@@ -293,6 +293,28 @@ func checkC20(r *Result) {
 		}
 		r.check(okAll, "FRESHNESS", "(*daemons/pricefeed/types.PriceTimestamp).GetValidPrice # valid exactly when LastUpdateTime is not before the cut-off", P.Pos(gv.Pos()), "returns (Price, true) iff !(LastUpdateTime < cutoff)")
 	}
+	// every market update of a batch is applied
+	if up := P.Func("(*" + mteT + ").UpdatePrices"); up != nil {
+		ok, why := false, "no loop applies updates"
+		isApply := func(in ssa.Instruction) bool {
+			c, isCall := in.(*ssa.Call)
+			if !isCall {
+				return false
+			}
+			cal := c.Common().StaticCallee()
+			return cal != nil && cal.Signature.Recv() != nil && typeShort(cal.Signature.Recv().Type()) == "*"+etpT && cal.Name() == "UpdatePrices"
+		}
+		for _, b := range up.Blocks {
+			for _, in := range b.Instrs {
+				if isApply(in) {
+					if h := innermostLoopHeader(up, b); h != nil {
+						ok, why = iterationPasses(up, h, isApply)
+					}
+				}
+			}
+		}
+		r.check(ok, "FRESHNESS", "(*"+mteT+").UpdatePrices # every market update of the batch reaches its exchange table", P.Pos(up.Pos()), why)
+	}
 	if gm := P.Func("(*" + mteT + ").GetValidMedianPrices"); gm != nil {
 		tm := NewTermer()
 		ps := AnalyzePaths(gm, []Atom{
@@ -321,6 +343,68 @@ func checkC20(r *Result) {
 			}
 		}
 		r.check(n == 1, "FRESHNESS", "(*"+mteT+").GetValidMedianPrices # one result write", P.Pos(gm.Pos()), fmt.Sprintf("%d", n))
+		// ... and every requested market that has enough valid prices and a median is served
+		{
+			heads := map[ssa.Instruction]bool{}
+			for _, h := range loopHeaders(gm) {
+				if len(h.Instrs) > 0 {
+					heads[h.Instrs[0]] = true
+				}
+			}
+			pe := AnalyzePaths(gm, []Atom{
+				{Name: "known", Cond: func(rel *Term) (bool, bool) {
+					return rel.Op == "ext:1" && len(rel.Args) == 1 && rel.Args[0].Op == "lookup" && rel.Contains("marketToExchangePrices"), true
+				}},
+				{Name: "enough", Cond: func(rel *Term) (bool, bool) {
+					if rel.Op == "<=" && len(rel.Args) == 2 && rel.Args[0].Has("field:daemons/pricefeed/client/types.MarketParam.MinExchanges") && rel.Args[1].Op == "call:builtin:len" {
+						return true, true
+					}
+					return false, false
+				}},
+				{Name: "medianErr", Cond: func(rel *Term) (bool, bool) {
+					if rel.Op == "==" && len(rel.Args) == 2 && rel.Args[1].Op == "const:nil" && rel.Args[0].Op == "ext:1" && rel.Args[0].Contains("lib.Median") {
+						return true, false
+					}
+					return false, false
+				}},
+				{Name: "served", Event: func(in ssa.Instruction) (bool, int8) {
+					if heads[in] {
+						return true, F
+					}
+					if _, ok := in.(*ssa.MapUpdate); ok {
+						return true, T
+					}
+					return false, U
+				}},
+			})
+			okAll, nBack, det := true, 0, ""
+			var serveLoops []*ssa.BasicBlock
+			for _, b := range gm.Blocks {
+				for _, in := range b.Instrs {
+					if _, ok := in.(*ssa.MapUpdate); ok {
+						if h := innermostLoopHeader(gm, b); h != nil {
+							serveLoops = append(serveLoops, h)
+						}
+					}
+				}
+			}
+			for _, h := range serveLoops {
+				for _, p := range h.Preds {
+					if !h.Dominates(p) {
+						continue
+					}
+					nBack++
+					// the facts of this iteration: a skipped test leaves an atom of the previous iteration, so every
+					// skip must itself be justified by one of the three tests having been taken with the excusing outcome
+					if bad := pe.RequireOnEdge(p, h, func(v map[string]bool) bool {
+						return v["served"] || !v["known"] || !v["enough"] || v["medianErr"]
+					}); len(bad) > 0 {
+						okAll, det = false, fmt.Sprint(bad)
+					}
+				}
+			}
+			r.check(okAll && nBack > 0 && len(pe.Matched["known"]) > 0, "FRESHNESS", "(*"+mteT+").GetValidMedianPrices # a requested market with enough valid prices and a median is in the result", P.Pos(gm.Pos()), fmt.Sprintf("%d back edges %s", nBack, det))
+		}
 		for _, cs := range P.CallSitesIn(gm) {
 			if cs.Callee == "(*"+etpT+").GetValidPrices" {
 				a := tm.Of(Arg(cs.Instr, 0))
